@@ -807,7 +807,11 @@ class Gen(object):
                 return ('in', lit, ('list', tuple(elems)))
             if rng.random() < 0.65:
                 v = self.newvar(env, t)
-                if lst[0] == 'var' or not (expr_vars(lst) - self.roots):
+                if lst[0] == 'var' or not (expr_vars(lst) if self.o['avoid_d11']
+                                           else (expr_vars(lst) - self.roots)):
+                    # (with avoid_d11: a variable drawn from a list over other
+                    # variables is derived, so that `g in [.. v ..]` is never
+                    # paired with `v in [.. g ..]` - the D11 class)
                     self.roots.add(v)
                 return ('in', ('var', v), lst)
             b = self.bound(env, t)
